@@ -14,19 +14,21 @@
      run_haplotag's writing loop    -> out_rec, list_rec, plan_none / plan_current (one fetch per region,
                                        dict order of normalize_user_regions), run_current / list_current
                                        (unmapped tail copied as is)
-   The repaired region rule (candidate fix for finding F8) is the pair norm_fixed / written_fixed,
-   used by run_fixed; run_current is what /repo does today.
+   Two variants of the region handling and of the list line are kept side by side:
+     run_current / list_current   the code before the repair of finding F8 (regions as given, one fetch per
+                                  region; loop variable leaking into the list line) — refuted by props/C10.v
+     run_fixed / list_fixed       the repaired rules (norm_fixed / written_fixed, list_entry_fixed): what
+                                  /repo implements after the fix and what the correspondence (L2) demands
 
    Trusted / supplied as data by the harness: the variant table rows and the read sets (alleles detected
-   by the real ReadSetReader), the iteration order of the python set `shared_samples`, and the semantics
+   by the real ReadSetReader), the order in which the samples are processed (recorded by the driver), and the semantics
    of pysam's fetch (a region yields, in file order, the alignments a with start < region end and
    end > region start, where end is htslib's bam_endpos).
 
-   Free choice not fixed by the code: prepare_haplotag_information iterates a python `set` of Read
-   objects (hash = address); the order only matters for which of several phase sets with the same maximal
-   score is reported for a BX group of >= 2 reads (first inserted).  The model uses the order
-   "current read first, then the others in read-set order"; `ambiguous_group` flags the cases where the
-   implementation's choice is free.
+   Order of a BX group: the read itself first, then the others in read-set order (/repo builds
+   reads_to_consider as a list; it used to be a python set of Read objects, whose order only mattered for
+   which of several phase sets with the same maximal score is reported).  `ambiguous` flags such groups
+   (tallied by the harness, no longer exempted from L2).
 
    No lemmas in this file. *)
 From Coq Require Import ZArith List Bool Arith.
